@@ -21,6 +21,7 @@ import numpy as np
 from .. import models, pipeline, quant, tlc
 from . import manager
 from . import deton
+from . import configload
 
 LEVEL = "model_checking"
 VT = 1e-7
@@ -455,6 +456,14 @@ def run(chk, tier, seed):
     ptraces += [t for g in scripted for t in g]
     if ptraces:
         chk.add_validation(tlc.validate("TracePressureIter.tla", "TracePressureIter.cfg", ptraces), ptraces, what="pressure iteration")
+    # "a function of the model and settings only": where the settings come from -- Config.loadConfigFromFile as a state update
+    chk.add_model(tlc.run_model("ConfigLoad.tla", "ConfigLoad.cfg", timeout=900), label="configuration loading: only the keys a file mentions change, unknown keys are ignored, loads compose")
+    chk.add_model(tlc.run_model("ConfigLoad.tla", "ConfigLoadAtomic.cfg", timeout=900), expect_violation="Atomic",
+                  label="documented counterexample: a load that raises has already assigned the keys read before the offending one")
+    ctraces = configload.run_sequences(tier, seed)
+    chk.add_validation(tlc.validate("TraceConfigLoad.tla", "TraceConfigLoad.cfg", ctraces), ctraces, what="configuration loading")
+    chk.extra.update(config_load_sequences=len(ctraces), config_loads=sum(1 for t in ctraces for e in t["ev"] if e["e"] == "Load"),
+                     config_loads_raising=sum(1 for t in ctraces for e in t["ev"] if e["e"] == "Load" and e["out"] != "ok"))
     # the detonation search on scripted pressure functions, against DetonSearch.tla
     for o in ("TRUE", "FALSE"):
         chk.add_model(tlc.run_model("DetonSearch.tla", f"DetonSearch_{o}.cfg", timeout=1200),
